@@ -103,6 +103,7 @@ class Executor:
             if self.probe.note:
                 self.notes.append(self.probe.note)
         self.tracer = seams.CrashTracer(os.path.join(os.path.realpath(REPO_ROOT), 'propka'))
+        self.state_probe = seams.StateProbe(self.mods)
         self.new_cwd([])
         self.probes.append([id(object()), 2, 0])
 
@@ -385,7 +386,7 @@ class Executor:
         return record.first_diff(a, b)
 
     # ----------------------------------------------------------- census
-    def census(self, call):
+    def census(self, call, track_state=False):
         """Fault-free pass of the same call in a forked child: counts file
         operations and per-function line events so that a fault lands inside
         the operation.  The parent's state is untouched; .pka files the child
@@ -409,14 +410,15 @@ class Executor:
                     self.files.reset_counts()
                     self.files.disarm()
                 thunk, _ = self.prepare(call)
-                self.tracer.start(None)
+                self.tracer.start(None, state=self.state_probe if track_state else None)
                 try:
                     self.invoke(thunk)
                 finally:
                     self.tracer.stop()
                 counts = sorted(([k[0], k[1], v] for k, v in self.tracer.counts.items()))
                 data = json.dumps({'n': self.files.n if self.files else {},
-                                   'funcs': counts}).encode()
+                                   'funcs': counts, 'windows': self.tracer.windows,
+                                   'events': self.tracer.events}).encode()
                 refserver.write_blob(cpath, data)
             finally:
                 os._exit(0)
@@ -451,8 +453,18 @@ class Executor:
             from sim import record
             key = record.digest(call)
             if key not in self.census_cache:
-                self.census_cache[key] = self.census(call)
+                self.census_cache[key] = self.census(call, track_state=True)
+                self.stats['state_windows'] = self.stats.get('state_windows', 0) + len(
+                    self.census_cache[key].get('windows', []))
             cen = self.census_cache[key]
+            wins = [w for w in cen.get('windows', []) if w[1] > w[0]]
+            if wins and fault.get('u_win', 1.0) < 0.7:
+                # aim into in-flight state: an interval during which process-
+                # lifetime state differs from its value at the start of the call
+                w = wins[fault['rank'] % len(wins)]
+                n = w[0] + int(fault['u_ord'] * (w[1] - w[0]))
+                self.stats['aimed_crashes'] = self.stats.get('aimed_crashes', 0) + 1
+                return {'kind': 'crash', 'target': None, 'target_global': n}
         else:
             cen = self.census(call)
         if kind == 'crash':
@@ -520,7 +532,7 @@ class Executor:
             self.probe.take()
         tracing = armed is not None and armed['kind'] == 'crash'
         if tracing:
-            self.tracer.start(armed['target'])
+            self.tracer.start(armed['target'], armed.get('target_global'))
         try:
             status, value = self.invoke(thunk)
         finally:
